@@ -45,7 +45,7 @@ def run(ctx, rep):
             script = []
             for _ in range(ctx.rng.randint(2, 12)):
                 i = ctx.rng.randrange(k)
-                op = ctx.rng.choice(['load', 'load', 'force', 'enforce', 'edit', 'edit_dir', 'edit_dir2'])
+                op = ctx.rng.choice(['load', 'load', 'force', 'enforce', 'edit', 'edit', 'edit_dir', 'edit_dir2', 'empty'])
                 script.append((i, op))
                 w, e = worlds[i], enfs[i]
                 if op == 'load':
@@ -61,6 +61,9 @@ def run(ctx, rep):
                 elif op == 'edit':
                     t += 1
                     w.write((None, None), ctx.rng.choice(CONTENTS), t)
+                elif op == 'empty':
+                    t += 1          # the file is edited down to no rules at all (main file or the policy.d file)
+                    w.write(ctx.rng.choice([(None, None), (None, None), (0, 'o.yaml')]), {}, t)
                 elif op == 'edit_dir2':
                     t += 1
                     w.write((1, 'x.yaml'), ctx.rng.choice(CONTENTS), t)
